@@ -1202,3 +1202,129 @@ Proof.
       assert (L2 : (length r <= n)%nat) by (cbn in L; lia).
       destruct (IH r s1 L2 A2) as [I1 I2]. rewrite I1, I2. split; reflexivity.
 Qed.
+
+(* ---------- per counter: a report is not below the floor in every counter that did not itself wrap ---------- *)
+Lemma c4_leb_w_le w a b c : c4_le a b -> c4_leb_w w b c = true -> c4_leb_w w a c = true.
+Proof.
+  unfold c4_le, c4_leb_w. intros (A & B & C & D). rewrite !andb_true_iff, !orb_true_iff, !N.leb_le. intuition lia.
+Qed.
+Lemma c4_leb_w_of_le w a b : c4_le a b -> c4_leb_w w a b = true.
+Proof.
+  unfold c4_le, c4_leb_w. intros (A & B & C & D). rewrite !andb_true_iff, !orb_true_iff, !N.leb_le. intuition lia.
+Qed.
+
+Lemma wrap1_ge st fl : st < W -> wrap1 st 0 fl = false -> fl <= add64 (sub64 st 0) fl.
+Proof.
+  intros L H. unfold wrap1 in H. apply orb_false_elim in H as [_ H]. rewrite N.leb_gt, N.sub_0_r in H.
+  rewrite sub64_zero by exact L. rewrite add64_small by exact H. lia.
+Qed.
+
+Lemma apply_ge4 v e st :
+  fix_counters v = true -> c4_lt_W st ->
+  c4_leb_w (apply_wraps4 v e st) (floor v e) (snd (apply v e st)) = true.
+Proof.
+  intros FC (L1 & L2 & L3 & L4). unfold apply, apply_wraps4. cbn [snd]. unfold rebase.
+  destruct (regressed v e st) eqn:R.
+  - set (F := floor v e). unfold c4_leb_w, cum. cbn [base prior c4_map2 rxb txb rxp txp c4z w_rxb w_txb w_rxp w_txp].
+    rewrite !andb_true_iff, !orb_true_iff, !N.leb_le.
+    repeat split;
+      match goal with |- wrap1 ?s 0 ?f = true \/ _ =>
+        destruct (wrap1 s 0 f) eqn:Wk; [left; reflexivity|right; apply wrap1_ge; assumption] end.
+  - unfold regressed in R. apply orb_false_elim in R as [_ R]. rewrite FC in R. cbn [andb] in R.
+    apply c4_any2_false in R as (H1 & H2 & H3 & H4). rewrite N.ltb_ge in H1, H2, H3, H4.
+    apply c4_leb_w_of_le. unfold c4_le. auto.
+Qed.
+
+Lemma report_ge4 v g tick e sn :
+  fix_counters v = true ->
+  c4_leb_w (report_wraps4 v g tick e sn) (floor v e) (snd (report v g tick e sn)) = true.
+Proof.
+  intros FC. unfold report, report_wraps4. destruct (reading v g tick e sn) as [st|] eqn:L.
+  - apply apply_ge4; [exact FC|eapply reading_lt; exact L].
+  - cbn. apply c4_leb_w_of_le. apply c4_le_refl'.
+Qed.
+
+(* the state keeps, in LastSent, exactly the value last sent in the bracket - also across restarts *)
+Definition hinv (s : sst) (prev : c4) : Prop :=
+  match cache s with
+  | Some e => hw e = prev /\ match db s with Some d => hw d = hw e | None => hw e = c4z end
+  | None => prev = c4z /\ db s = None
+  end.
+
+Lemma step_mono4 fo fl g s prev ev :
+  hinv s prev ->
+  let v := V true fo fl true in
+  fst (mono_outs (lstep_wraps4 v g s ev) prev (snd (lstep v g s ev))) = true /\
+  hinv (fst (lstep v g s ev)) (snd (mono_outs (lstep_wraps4 v g s ev) prev (snd (lstep v g s ev)))).
+Proof.
+  intros H v. unfold hinv in H. destruct s as [ib ca d oo]. cbn [cache db] in H.
+  destruct ev as [i h|i h|sn|sn ok| | |lk| |past]; cbn [lstep lstep_wraps4 cache inb db orph].
+  - (* Active *)
+    destruct ib; [cbn [snd fst mono_outs]; split; [reflexivity|exact H]|].
+    destruct ca as [e|]; cbn [fix_active v V snd fst mono_outs].
+    + split; [reflexivity|]. unfold hinv, confirm; cbn. exact H.
+    + destruct H as [H1 H2]. split; [reflexivity|]. unfold hinv; cbn. auto.
+  - (* Restored *)
+    destruct ca as [e|]; cbn [snd fst mono_outs]; (split; [reflexivity|]); unfold hinv, confirm; cbn.
+    + exact H.
+    + destruct H as [H1 H2]. subst. cbn. auto.
+  - (* Released *)
+    destruct ca as [e|]; cbn [fix_stop v V snd fst mono_outs].
+    + destruct H as [H1 H2]. subst prev.
+      pose proof (report_ge4 v g false e sn eq_refl) as G.
+      rewrite (c4_leb_w_le _ _ _ _ (floor_ge_hw v e eq_refl) G). cbn. split; [reflexivity|]. unfold hinv; cbn. auto.
+    + split; [reflexivity|]. unfold hinv; cbn. destruct H; split; auto.
+  - (* Tick *)
+    destruct ib; [|cbn [snd fst mono_outs]; split; [reflexivity|exact H]].
+    destruct ca as [e|]; [|cbn [snd fst mono_outs]; split; [reflexivity|exact H]].
+    destruct H as [H1 H2]. subst prev.
+    pose proof (report_ge4 v g true e sn eq_refl) as G.
+    pose proof (report_fields v g true e sn) as (F1 & F2 & F3 & F4).
+    destruct (report v g true e sn) as [e0 c] eqn:RP. cbn [fst snd] in *.
+    pose proof (c4_leb_w_le _ _ _ _ (floor_ge_hw v e eq_refl) G) as G'.
+    cbn [fix_sent fix_presend v V andb].
+    destruct ok; cbn [snd fst mono_outs]; rewrite G'; cbn; (split; [reflexivity|]); unfold hinv; cbn; auto.
+  - (* EAck *)
+    destruct ca as [e|]; cbn [snd fst mono_outs]; (split; [reflexivity|]); unfold hinv; cbn; [|exact H].
+    destruct H as [H1 H2]. auto.
+  - (* ENack *)
+    destruct ca as [e|]; cbn [fix_sent v V snd fst mono_outs]; (split; [reflexivity|]); unfold hinv; cbn; [|exact H].
+    destruct H as [H1 H2]. auto.
+  - (* ELate *)
+    destruct oo; cbn [fix_ghost v V snd fst mono_outs]; (split; [reflexivity|]); unfold hinv; cbn; exact H.
+  - (* Restart *)
+    cbn [snd fst mono_outs]. split; [reflexivity|]. unfold hinv; cbn.
+    destruct ca as [e|], d as [dd|]; cbn in *.
+    + destruct H as [H1 H2]. split; [congruence|reflexivity].
+    + destruct H as [H1 H2]. split; [congruence|reflexivity].
+    + destruct H as [H1 H2]. discriminate.
+    + exact H.
+  - (* Prune *)
+    destruct ca as [e|]; [|cbn [snd fst mono_outs]; split; [reflexivity|exact H]].
+    destruct (pending e && past); cbn [fix_prune v V snd fst mono_outs]; [|split; [reflexivity|exact H]].
+    destruct H as [H1 H2]. subst prev.
+    rewrite (c4_leb_w_of_le b4_none _ _ (floor_ge_hw v e eq_refl)). cbn. split; [reflexivity|]. unfold hinv; cbn. auto.
+Qed.
+
+Lemma run_mono4 fo fl g evs : forall s prev,
+  hinv s prev -> mono4 prev (lrun4 (V true fo fl true) g s evs) = true.
+Proof.
+  induction evs as [|ev r IH]; intros s prev H; [reflexivity|].
+  cbn [lrun4 mono4]. destruct (step_mono4 fo fl g s prev ev H) as [A B].
+  destruct (mono_outs (lstep_wraps4 (V true fo fl true) g s ev) prev (snd (lstep (V true fo fl true) g s ev))) as [ok p].
+  cbn [fst snd] in *. subst ok. cbn [andb]. apply IH. exact B.
+Qed.
+
+Lemma monotone_per_counter fo fl g evs : mono4 c4z (lrun4 (V true fo fl true) g sst0 evs) = true.
+Proof. apply run_mono4. unfold hinv; cbn. auto. Qed.
+
+(* the session-level wrap flag is the disjunction of the per-counter ones (one definition for theorem and driver) *)
+Lemma apply_wraps_any v e st : apply_wraps v e st = b4_any (apply_wraps4 v e st).
+Proof.
+  unfold apply_wraps, apply_wraps4, b4_any, c4_any2, wrap1. cbn [w_rxb w_txb w_rxp w_txp c4_map2 rxb txb rxp txp].
+  set (e' := rebase v e st).
+  destruct (rxb st <? rxb (base e')), (txb st <? txb (base e')), (rxp st <? rxp (base e')), (txp st <? txp (base e'));
+    cbn [orb]; try reflexivity;
+    destruct (W <=? rxb st - rxb (base e') + rxb (prior e')), (W <=? txb st - txb (base e') + txb (prior e')),
+             (W <=? rxp st - rxp (base e') + rxp (prior e')), (W <=? txp st - txp (base e') + txp (prior e')); reflexivity.
+Qed.
